@@ -31,4 +31,8 @@ def check(ctx, run):
     recursion.rrec(ctx, run, 'R09.9', ROOTS, {'path-text'}, 'recursion of the JSONPath grammar on nesting depth', floor=1)
     recursion.left_deep(ctx, run, 'R09.10', ('jsonpath::parser::expr_and', 'jsonpath::parser::expr_or'), floor=2)
     textparser.r02_12(ctx, run, rule='R09.6/R02.12')
+    safety.forbidden_calls(ctx, run, 'R09.12', ROOTS, ('String::from_utf8_lossy', 'from_utf8_lossy', 'String::from_utf16_lossy', 'char::from_u32_unchecked'),
+                           'the parser', 'ill-formed input is silently repaired (U+FFFD substituted) instead of being rejected with an error',
+                           only=lambda p_: p_.startswith(('util::', 'parser::', 'jsonpath::parser::', 'keypath::')))
+    textparser.r02_3(ctx, run, rule='R09.6/R02.3')
     return report.finish(run, level='other', explanation=EXPLANATION, assumptions=["nom 7 contracts: separated_list1 yields >= 1 element; complete parsers never return Incomplete", "A3"])
